@@ -36,6 +36,12 @@ TMarker(p)      == IF p = "d" THEN "-0x1.81cd5c28f5c29p+13" ELSE "-0xc.0e6ae147a
 TSentinel(p)    == IF p = "d" THEN "-0x1.547ae147ae148p+0"  ELSE "-0xa.a3d70a3d70a4p-3"      \* -1.33
 TNoSuchParam(p) == IF p = "d" THEN "-0x1.4p+4"              ELSE "-0xap+1"                   \* -20
 TOne(p)         == IF p = "d" THEN "0x1p+0"                 ELSE "0x8p-3"                    \* 1
+\* masa_display_param prints with precision(16): the printed decimal agrees with the stored value to 16 significant
+\* digits (a non-finite stored value prints as nan/inf: not compared)
+TDispAccept(p, v, s) ==
+  LET a == NFromStr(v) b == NFromStr(s)
+  IN  IF ~NIsFinite(a) THEN TRUE
+      ELSE NIsFinite(b) /\ NLe(NAbs(NSub(a, b)), NMul(NFromStr("1e-15"), NAbs(a)))
 TInitDflt ==
   [p \in TPrec |-> [n \in {Cat!Catalog[i].name : i \in 1..Len(Cat!Catalog)} |->
       LET e == Cat!Catalog[CHOOSE i \in 1..Len(Cat!Catalog) : Cat!Catalog[i].name = n]
@@ -60,7 +66,7 @@ TArgsRegular(sol, fn, sig, args) ==
       /\ \A i \in 1..Len(args[1]) : NLt(N0, NFromStr(args[1][i]))
 
 M == INSTANCE Masa WITH Prec <- TPrec, Catalog <- Cat!Catalog, Build <- TBuild,
-                        Marker <- TMarker, Sentinel <- TSentinel, NoSuchParam <- TNoSuchParam, One <- TOne,
+                        Marker <- TMarker, Sentinel <- TSentinel, NoSuchParam <- TNoSuchParam, One <- TOne, DispAccept <- TDispAccept,
                         InitDflt <- TInitDflt, UseMemo <- ~Relaxed("MEMO"), EvalAccept <- TEvalAccept,
                         ArgsRegular <- TArgsRegular
 
